@@ -198,7 +198,17 @@ def upvar_sources(ctx, child):
 
 
 def spawned_children(ctx, parent_key):
-    return [ctx.P.bodies[e.dst] for e in ctx.cg.out.get(parent_key, []) if e.kind == "spawn"]
+    """bodies that run as tasks spawned by parent_key; `spawn(named_async_fn(..))` contributes the function's coroutine body"""
+    out = []
+    for e in ctx.cg.out.get(parent_key, []):
+        if e.kind != "spawn":
+            continue
+        b = ctx.P.bodies[e.dst]
+        out.append(b)
+        co_ = ctx.P.bodies.get(e.dst + "::{closure#0}")
+        if co_ is not None and b.j.get("is_async_fn") in (True, "true") and co_ not in out:
+            out.append(co_)
+    return out
 
 
 def stores_through(body, o):
